@@ -90,7 +90,7 @@ def bnds(c):
 
 def inst_unify(spec, policy, hi=None, with_limit=True):
     """spec: list of (index labels, blocks per axis or 'one' for a length-1 broadcast axis, itemsize)"""
-    labels = sorted({j for ind, _b, _i in spec for j in ind})
+    labels = sorted({j for ind, *_r in spec for j in ind})
 
     def body(E):
         limit = E.int("limit", 1) if with_limit else None
@@ -98,8 +98,17 @@ def inst_unify(spec, policy, hi=None, with_limit=True):
         # one axis length per label
         length = {}
         args, ops = [], []
-        for k, (ind, blocks, itemsize) in enumerate(spec):
+        for k, (ind, blocks, itemsize, *share) in enumerate(spec):
             chunks = []
+            if share:
+                # the very same chunk tuples as an earlier operand, under other index labels (e.g. 'ij' and 'ji' of a square array)
+                chunks = list(ops[share[0]][0].chunks)
+                for n, j in enumerate(ind):
+                    if j in length:
+                        E.assume(sum(chunks[n]) == length[j])
+                    else:
+                        length[j] = sum(chunks[n])
+                blocks = ()
             for n, (j, m) in enumerate(zip(ind, blocks)):
                 if m == "one":
                     chunks.append((1,))
@@ -150,8 +159,9 @@ def inst_unify(spec, policy, hi=None, with_limit=True):
 
         arrs = []
         shp = {}
-        for k, (ind, blocks, itemsize) in enumerate(spec):
-            cs = tuple((1,) if m == "one" else tuple(values[f"c{k}_{n}_{i}"] for i in range(m)) for n, m in enumerate(blocks))
+        for k, (ind, blocks, itemsize, *share) in enumerate(spec):
+            kk = share[0] if share else k
+            cs = tuple((1,) if m == "one" else tuple(values[f"c{kk}_{n}_{i}"] for i in range(m)) for n, m in enumerate(blocks))
             shape = tuple(sum(c) for c in cs)
             if int(np.prod(shape)) > 50000:
                 return dict(ok=False, detail="too large for an API replay; unit-level replay stands")
@@ -182,7 +192,7 @@ def inst_unify(spec, policy, hi=None, with_limit=True):
 
     return Instance(f"unify[{spec},policy={policy},sizes<={hi},limit={'sym' if with_limit else None}]", body,
                     dict(spec=spec, policy=policy, hi=hi), unit="unify_chunks_expr", api_replay=api,
-                    cost=(4 if policy == "auto" else 1) * sum(sum(b for b in bl if b != "one") for _i, bl, _s in spec), wall_s=900,
+                    cost=(4 if policy == "auto" else 1) * sum(sum(b for b in bl if b != "one") for _i, bl, *_s in spec), wall_s=900,
                     timeout_ms=30000)
 
 
@@ -216,9 +226,29 @@ def inst_common_blockdim(ms, fn="common_blockdim"):
     return Instance(f"{fn}[{ms}]", body, dict(blocks=ms), unit=fn)
 
 
+def _program_body(E, w, prog):
+    """element-wise programs whose operands (data, where= mask, out=) arrive on different layouts: the unification the real
+    lowering inserts leaves every block of the materialized graph on the advertised layout with NumPy's values"""
+    from symx.sarr import same_array
+
+    from . import catalog
+
+    for stage in ("materialized", "materialized_off"):
+        m = catalog.stages(E, w, prog.node, {stage})[stage]
+        whole, dsk, r = catalog.run_tree(E, m, prog.node.chunks, stage, check_shapes=True)
+        same_array(E, whole, prog.ref, label=f"{stage}-values", skolem=f"p{stage[-1]}")
+
+
+def _program_instances(tier):
+    from . import catalog
+
+    return catalog.make_instances(tier, "C17", _program_body, "Elemwise._lower / Blockwise._lower + unify_chunks_expr inside programs",
+                                  select=lambda name: ("unaligned" in name or "where=" in name) and "map_blocks" not in name)
+
+
 def instances(tier):
     q = tier == "quick"
-    out = []
+    out = _program_instances(tier)
     for ms in ([(1, 2), (2, 2), (2, 3), (3, 3), (1, 1), (2, 2, 2)] if q else [(1, 2), (2, 2), (2, 3), (3, 3), (1, 1), (2, 2, 2), (3, 4), (2, 3, 3)]):
         out.append(inst_common_blockdim(ms, "common_blockdim"))
         out.append(inst_common_blockdim(ms, "coarse_blockdim"))
@@ -231,6 +261,8 @@ def instances(tier):
         out.append(inst_unify([(I, (1,), 8), (I, (2,), 8)], policy, hi))
         out.append(inst_unify([(("i", "j"), (2, 2), 8), (("j",), (2,), 4)], policy, 4 if policy == "auto" else None))
         out.append(inst_unify([(("i", "j"), (2, "one"), 8), (("i", "j"), (2, 2), 8)], policy, 4 if policy == "auto" else None))
+        # the same chunk tuples under permuted labels: not "already aligned"
+        out.append(inst_unify([(("i", "j"), (2, 2), 8), (("j", "i"), (2, 2), 8, 0)], policy, 3 if policy == "auto" else None))
         if policy != "refine":
             # both operands are grown by the merge, crosswise (the size guard must track the worst one)
             out.append(inst_unify([(("i", "j"), (2, 3), 8), (("i", "j"), (3, 2), 4)], policy, 2 if q else 3))
